@@ -21,7 +21,7 @@ echo "demo: clean rc=$clean_rc mutated rc=$mut_rc; $base"
 results=""
 cd "$V"
 for id in $checks; do
-  o=$(VERIF_REPO="$W" VERIF_NO_EVIDENCE=1 VERIF_SHRINK_S="${VERIF_SHRINK_S:-5}" ./check "$id" --tier "${TIER:-quick}" 2>&1); rc=$?
+  o=$(VERIF_REPO="$W" VERIF_NO_EVIDENCE=1 VERIF_SHRINK_S="${VERIF_SHRINK_S:-5}" VERIF_FAILFAST=1 ./check "$id" --tier "${TIER:-quick}" 2>&1); rc=$?
   line=$(echo "$o" | grep -m1 'detail:' | cut -c1-300 | sed 's/"/\\"/g')
   echo "  $id rc=$rc $line"
   results="$results{\"check\": \"$id\", \"tier\": \"${TIER:-quick}\", \"rc\": $rc, \"first_detail\": \"$line\"},"
